@@ -207,6 +207,8 @@ pub fn generate_c05(thorough: bool, seed: u64, part: (usize, usize), em: &mut Em
     let good = confirm(2, 0, 1);
     for off in 0..good.len() { for v in fault_vals { let mut b = good.clone(); b[off] = *v; emit(em, format!("x224_conn 3 {} {}", r.below(2), hex(&b))); } }
     for cut in 0..good.len() { emit(em, format!("x224_conn 3 1 {}", hex(&good[..cut]))); }
+    // every negotiation-failure code (and the other reply types) over the whole low byte and above
+    for ty in &[3u8, 1, 0, 4, 0xff] { for code in (0..=255u32).chain([256u32, 0xffff, 0x7fffffff, 0xffffffff].iter().cloned()) { emit(em, format!("x224_conn 3 1 {}", hex(&confirm(*ty, 0, code)))); } }
     {
         // the frame itself cut short / announcing more than arrives, then end of stream
         let framed = refsrv::tpkt_frame(&good);
@@ -272,4 +274,12 @@ pub fn conforming_channel_lists(em: &mut Emitter) {
         let ids: Vec<u16> = (0..n).map(|i| 1004 + i as u16).collect();
         emit(em, format!("gcc_ccr {}", hex(&refsrv::gcc_response_channels(&p, &ids, *pad))));
     } } }
+    // the three conforming sizes of the server core block: version only / + requested protocol / + early capability flags
+    for &ver in &[0x00080004u32, 0x00080001, 0x00080005] { for extra in 0..3usize {
+        let mut core = refsrv::cat(&[&[0x01, 0x0c, (8 + 4 * extra) as u8, 0x00], &refsrv::le32(ver)]);
+        for k in 0..extra { core.extend(refsrv::le32(k as u32 + 1)); }
+        let blocks = refsrv::cat(&[&core, &[0x02, 0x0c, 0x0c, 0x00, 0, 0, 0, 0, 0, 0, 0, 0], &[0x03, 0x0c, 0x08, 0x00, 0xeb, 0x03, 0x00, 0x00]]);
+        let tail = refsrv::cat(&[&[0x14, 0x76, 0x0a, 0x01, 0x01, 0x00, 0x01, 0xc0, 0x00], b"McDn", &refsrv::perlen(blocks.len()), &blocks]);
+        emit(em, format!("gcc_ccr {}", hex(&refsrv::cat(&[&[0x00, 0x05, 0x00, 0x14, 0x7c, 0x00, 0x01], &refsrv::perlen(tail.len()), &tail]))));
+    } }
 }
